@@ -60,11 +60,12 @@ func (o Op) String() string {
 
 // Result is the canonical outcome of an operation.
 type Result struct {
-	Err  string   // "" or the error text
-	Val  string   // canonical scalar value
-	Set  []string // canonical set-valued result (sorted)
-	Cand []string // ActiveHosts only (model): every eligible host, canonical
-	Need int      // ActiveHosts only (model): required result size
+	Err   string   // "" or the error text
+	Val   string   // canonical scalar value
+	Set   []string // canonical set-valued result (sorted)
+	Cand  []string // ActiveHosts only (model): every eligible host, canonical
+	Need  int      // ActiveHosts only (model): required result size
+	Nonce int64    // Nonce ops: the absolute nonce that was submitted
 }
 
 func (r Result) String() string {
@@ -203,7 +204,8 @@ func Apply(s store.Store, o Op, tc TimeCanon) Result {
 		sort.Strings(set)
 		return Result{Set: set}
 	case "Nonce":
-		return Result{Err: errText(s.CheckAndSaveNonce(o.Node, now.UnixNano()+o.DeltaNs))}
+		n := now.UnixNano() + o.DeltaNs
+		return Result{Err: errText(s.CheckAndSaveNonce(o.Node, n)), Nonce: n}
 	case "Stats":
 		st, err := s.Stats()
 		if err != nil {
@@ -243,4 +245,16 @@ func Observe(s store.Store, nodes, accts []string, tc TimeCanon, withStats bool)
 		add(Op{K: "Stats"})
 	}
 	return out
+}
+
+// CoarseTime renders a timestamp as "recent" (within the last hour or in the
+// future) or "old"; used where two processes cannot agree on exact instants.
+func CoarseTime(t time.Time) string {
+	if t.IsZero() {
+		return "zero"
+	}
+	if time.Since(t) < time.Hour {
+		return "recent"
+	}
+	return "old"
 }
